@@ -1,39 +1,46 @@
 //@unit C17_polytree
 //@props C17
 //@safetyprops C10
-//@desc Polytree marshalling of the C export layer, MODULAR in the depth of the tree: the harness holds ONE node with at most 2 children; the recursive calls go to stand-ins that behave as the induction hypothesis says (a child's block is exactly its ghost length g_len long and stays inside the buffer), so the facts hold for trees of any depth whose nodes have at most two children (BOUNDED: fan-out 2, polygons of at most 11 vertices, 7 with USINGZ). With g_len(node) = 2 + D * |polygon| + sum of the children's g_len (D = 2 values per vertex, 3 with USINGZ): GetPolyPathArrayLen64 returns exactly g_len; CreateCPolyPath64 writes [ |polygon|, child count, x0, y0, (z0,) ... ] then the children's blocks, never writes outside the g_len elements that start at the cursor - so the array CreateCPolyTree64 allocates with the length function is never overrun (C10) -, advances the cursor by exactly g_len, and stores vertex k at offset 2 + D*k, x then y (then z, bit for bit). CreateCPolyTree64: an empty tree gives nullptr; otherwise the array starts with its own total length and the top-level child count, and the cursor ends exactly at the end of the allocation.
+//@desc Polytree marshalling of the C export layer, MODULAR in the depth of the tree: the harness holds ONE node with at most 2 children; the recursive calls go to stand-ins that behave as the induction hypothesis says (a child's block is exactly its ghost length g_len long and stays inside the buffer), so the facts hold for trees of any depth whose nodes have at most two children (BOUNDED: fan-out 2, polygons of at most 11 vertices, 7 with USINGZ). With g_len(node) = 2 + D * |polygon| + sum of the children's g_len (D = 2 values per vertex, 3 with USINGZ): GetPolyPathArrayLen64 returns exactly g_len; CreateCPolyPath64 writes [ |polygon|, child count, x0, y0, (z0,) ... ] then the children's blocks, never writes outside the g_len elements that start at the cursor - so the array CreateCPolyTree64 allocates with the length function is never overrun (C10) -, advances the cursor by exactly g_len, and stores vertex k at offset 2 + D*k, x then y (then z, bit for bit). CreateCPolyTree64: an empty tree gives nullptr; otherwise the array starts with its own total length and the top-level child count, and the children's blocks fit exactly. The D writers (arrays of double) are checked the same way.
 #include "vf.h"
+#ifdef DVAR
+typedef double ELT;           /* the D writers: same layout in an array of double */
+#else
+typedef int64_t ELT;
+#endif
 #ifdef USINGZ
-typedef struct { int64_t x, y, z; } Point64;
+typedef struct { ELT x, y; int64_t z; } Point64;
 #define D 3
 #else
-typedef struct { int64_t x, y; } Point64;
+typedef struct { ELT x, y; } Point64;
 #define D 2
 #endif
+typedef Point64 PointD; 
 typedef struct { Point64* data; size_t size; } Path64;
 typedef struct PolyPath64 PolyPath64;
 struct PolyPath64 { Path64 polygon_; PolyPath64* c0; PolyPath64* c1; size_t count; size_t g_len; /* ghost: length of this node's block */ };
-typedef PolyPath64 PolyTree64;
+typedef PolyPath64 PolyTree64; typedef PolyPath64 PolyPathD; typedef PolyPath64 PolyTreeD;
 #define EXPORT_VERTEX_DIMENSIONALITY D
 #define CAP 24
-int64_t g_buf[CAP]; int64_t* g_end; int g_nalloc;
+ELT g_buf[CAP]; ELT* g_end; int g_nalloc;
 static PolyPath64* vf_child(const PolyPath64* pp, size_t i) { __CPROVER_assert(i < pp->count, "child index in range"); return i == 0 ? pp->c0 : pp->c1; }
 /* stand-ins for the recursive calls = the induction hypothesis for the children */
 static size_t Len_child(const PolyPath64* c) { return c->g_len; }
-static void Create_child(const PolyPath64* c, int64_t** v) { __CPROVER_assert(*v >= g_buf && *v + c->g_len <= g_end, "the child's block fits between the cursor and the end of the array"); *v += c->g_len; }
+static void Create_child(const PolyPath64* c, ELT** v) { __CPROVER_assert(*v >= g_buf && *v + c->g_len <= g_end, "the child's block fits between the cursor and the end of the array"); *v += c->g_len; }
 #define VF_WRITE(v, val) do { __CPROVER_assert((v) >= g_buf && (v) < g_end, "write inside the array"); *(v) = (val); (v)++; } while (0)
-static int64_t* vf_alloc(size_t n) { __CPROVER_assert(g_nalloc == 0 && n <= CAP, "one array of the computed length"); g_nalloc++; g_end = g_buf + n; return g_buf; }
+static ELT* vf_alloc(size_t n) { __CPROVER_assert(g_nalloc == 0 && n <= CAP, "one array of the computed length"); g_nalloc++; g_end = g_buf + n; return g_buf; }
 #define Reinterpret_i64(z) (z)
-//@extract file=CPP/Clipper2Lib/include/clipper2/clipper.export.h func=GetPolyPathArrayLen64 byptr=pp
+static double Reinterpret_dbl(int64_t z) { return *(double*)&z; }
+//@extract file=CPP/Clipper2Lib/include/clipper2/clipper.export.h func=GetPolyPathArrayLen64 byptr=pp ifndef=DVAR
 //@sub /pp->Polygon\(\)\.size\(\)/pp->polygon_.size/
 //@sub /pp->Count\(\)/pp->count/
 //@sub /GetPolyPathArrayLen64\([^;]*\[i\]\)/Len_child(vf_child(pp, i))/
 //@end
-//@extract file=CPP/Clipper2Lib/include/clipper2/clipper.export.h func=GetPolytreeCountAndCStorageSize64 byptr=tree,cnt,array_len
+//@extract file=CPP/Clipper2Lib/include/clipper2/clipper.export.h func=GetPolytreeCountAndCStorageSize64 byptr=tree,cnt,array_len ifndef=DVAR
 //@sub /tree->Count\(\)/tree->count/
 //@sub /GetPolyPathArrayLen64\(\(\*tree\)\)|GetPolyPathArrayLen64\(\*tree\)/GetPolyPathArrayLen64(tree)/ min=0
 //@end
-//@extract file=CPP/Clipper2Lib/include/clipper2/clipper.export.h func=CreateCPolyPath64
+//@extract file=CPP/Clipper2Lib/include/clipper2/clipper.export.h func=CreateCPolyPath64 ifndef=DVAR
 //@presub /\*\s*v\+\+ = ([^;]*);/VF_WRITE(*v_, \1);/ min=4
 //@presub /int64_t\*& v\)/int64_t** v_)/
 //@presub /CreateCPolyPath64\(pp->Child\(i\), v\);/Create_child(vf_child(pp, i), v_);/
@@ -43,7 +50,7 @@ static int64_t* vf_alloc(size_t n) { __CPROVER_assert(g_nalloc == 0 && n <= CAP,
 //@presub /pp->Count\(\)/pp->count/ min=2
 //@presub /Reinterpret<int64_t>\(/Reinterpret_i64(/ min=0
 //@end
-//@extract file=CPP/Clipper2Lib/include/clipper2/clipper.export.h func=CreateCPolyTree64 byptr=tree ifdef=TOP
+//@extract file=CPP/Clipper2Lib/include/clipper2/clipper.export.h func=CreateCPolyTree64 byptr=tree ifdef=TOP64
 //@sub /new int64_t\[array_len\]/vf_alloc(array_len)/
 //@sub /VF_WRITE\(\*v_,/VF_WRITE(v,/ min=0
 //@presub /\*\s*v\+\+ = ([^;]*);/VF_WRITE(v, \1);/ min=2
@@ -51,6 +58,38 @@ static int64_t* vf_alloc(size_t n) { __CPROVER_assert(g_nalloc == 0 && n <= CAP,
 //@presub /CreateCPolyPath64\(tree\.Child\(i\), v\);/Create_child(vf_child(&tree, i), &v);/
 //@sub /GetPolytreeCountAndCStorageSize64\(\(\*tree\), cnt, array_len\)/GetPolytreeCountAndCStorageSize64(tree, &cnt, &array_len)/ min=0
 //@end
+//@extract file=CPP/Clipper2Lib/include/clipper2/clipper.export.h func=GetPolyPathArrayLenD byptr=pp ifdef=DVAR
+//@sub /pp->Polygon\(\)\.size\(\)/pp->polygon_.size/
+//@sub /pp->Count\(\)/pp->count/
+//@sub /GetPolyPathArrayLenD\([^;]*\[i\]\)/Len_child(vf_child(pp, i))/
+//@end
+//@extract file=CPP/Clipper2Lib/include/clipper2/clipper.export.h func=GetPolytreeCountAndCStorageSizeD byptr=tree,cnt,array_len ifdef=DVAR
+//@sub /tree->Count\(\)/tree->count/
+//@sub /GetPolyPathArrayLenD\(\(\*tree\)\)|GetPolyPathArrayLenD\(\*tree\)/GetPolyPathArrayLenD(tree)/ min=0
+//@end
+//@extract file=CPP/Clipper2Lib/include/clipper2/clipper.export.h func=CreateCPolyPathD ifdef=DVAR
+//@presub /\*\s*v\+\+ = ([^;]*);/VF_WRITE(*v_, \1);/ min=4
+//@presub /double\*& v\)/double** v_)/
+//@presub /CreateCPolyPathD\(pp->Child\(i\), v\);/Create_child(vf_child(pp, i), v_);/
+//@presub /for \(const PointD& pt : pp->Polygon\(\)\)/for (size_t pk_ = 0; pk_ < pp->polygon_.size; ++pk_)/
+//@presub /\bpt\.(x|y|z)\b/pp->polygon_.data[pk_].\1/ min=2
+//@presub /pp->Polygon\(\)\.size\(\)/pp->polygon_.size/
+//@presub /pp->Count\(\)/pp->count/ min=2
+//@presub /Reinterpret<double>\(/Reinterpret_dbl(/ min=0
+//@end
+//@extract file=CPP/Clipper2Lib/include/clipper2/clipper.export.h func=CreateCPolyTreeD byptr=tree ifdef=TOPD
+//@sub /new double\[array_len\]/vf_alloc(array_len)/
+//@presub /double scale = std::log10\(tree\.Scale\(\)\);//
+//@presub /\*\s*v\+\+ = ([^;]*);/VF_WRITE(v, \1);/ min=2
+//@presub /tree\.Count\(\)/tree.count/ min=2
+//@presub /CreateCPolyPathD\(tree\.Child\(i\), v\);/Create_child(vf_child(&tree, i), &v);/
+//@sub /GetPolytreeCountAndCStorageSizeD\(\(\*tree\), cnt, array_len\)/GetPolytreeCountAndCStorageSizeD(tree, &cnt, &array_len)/ min=0
+//@end
+#ifdef DVAR
+#define GetPolyPathArrayLen64 GetPolyPathArrayLenD
+#define CreateCPolyPath64 CreateCPolyPathD
+#define CreateCPolyTree64 CreateCPolyTreeD
+#endif
 size_t nondet_size(void); int64_t nondet_i64(void); bool nondet_bool(void);
 PolyPath64 g_node, g_c0, g_c1; Point64 g_poly[(CAP - 2) / D];
 static void mk_node(void)
@@ -61,19 +100,20 @@ static void mk_node(void)
   g_node.g_len = 2 + D * g_node.polygon_.size + (g_node.count >= 1 ? g_c0.g_len : 0) + (g_node.count >= 2 ? g_c1.g_len : 0);
   __CPROVER_assume(g_node.g_len <= CAP);
 }
+#define SAMEV(a, b) (*(const int64_t*)&(a) == *(const int64_t*)&(b))     /* same bits (doubles may be NaN) */
 #ifndef TOP
 void h_Len(void) { mk_node(); __CPROVER_assert(GetPolyPathArrayLen64(&g_node) == g_node.g_len, "the length function returns the node's block length"); VF_CANARY(); }
 void h_Create(void)
 {
   mk_node(); size_t room = nondet_size(), off = nondet_size(); __CPROVER_assume(off <= CAP && room <= CAP - off && g_node.g_len <= room);   /* the cursor anywhere in an array with enough room left */
-  g_end = g_buf + off + room; int64_t* v = g_buf + off; int64_t* v0 = v;
+  g_end = g_buf + off + room; ELT* v = g_buf + off; ELT* v0 = v;
   CreateCPolyPath64(&g_node, &v);
   __CPROVER_assert(v == v0 + g_node.g_len, "the cursor advances by exactly the node's block length");
-  __CPROVER_assert(v0[0] == (int64_t)g_node.polygon_.size && v0[1] == (int64_t)g_node.count, "header: polygon length, child count");
+  __CPROVER_assert(v0[0] == (ELT)g_node.polygon_.size && v0[1] == (ELT)g_node.count, "header: polygon length, child count");
   size_t k = nondet_size(); if (k < g_node.polygon_.size) {
-    __CPROVER_assert(v0[2 + D * k] == g_poly[k].x && v0[2 + D * k + 1] == g_poly[k].y, "vertex k at offset 2 + D*k, x then y");
+    __CPROVER_assert(SAMEV(v0[2 + D * k], g_poly[k].x) && SAMEV(v0[2 + D * k + 1], g_poly[k].y), "vertex k at offset 2 + D*k, x then y");
 #ifdef USINGZ
-    __CPROVER_assert(v0[2 + D * k + 2] == g_poly[k].z, "then z, bit for bit");
+    __CPROVER_assert(*(int64_t*)&v0[2 + D * k + 2] == g_poly[k].z, "then z, bit for bit");
 #endif
   }
   VF_CANARY();
@@ -82,15 +122,19 @@ void h_Create(void)
 void h_Tree(void)
 {
   mk_node(); g_nalloc = 0; bool with_root_polygon = nondet_bool(); if (!with_root_polygon) __CPROVER_assume(g_node.polygon_.size == 0);
-  int64_t* r = CreateCPolyTree64(&g_node);
+  ELT* r = CreateCPolyTree64(&g_node);
   if (g_node.count == 0) __CPROVER_assert(r == NULL && g_nalloc == 0, "an empty tree gives nullptr, nothing is allocated");
   else { __CPROVER_assert(r == g_buf && g_nalloc == 1 && g_end == g_buf + g_node.g_len, "one array of exactly the computed length");
-         __CPROVER_assert(r[0] == (int64_t)g_node.g_len && r[1] == (int64_t)g_node.count, "header: total length, top-level count"); }
+         __CPROVER_assert(r[0] == (ELT)g_node.g_len && r[1] == (ELT)g_node.count, "header: total length, top-level count"); }
   VF_CANARY();
 }
 #endif
 //@run name=GetPolyPathArrayLen64 entry=h_Len unwind=4 flags=SAFETY timeout=300 bounded="at most 2 children per node (depth by induction)"
 //@run name=CreateCPolyPath64 entry=h_Create unwind=13 flags=SAFETY timeout=600 bounded="at most 2 children per node, polygon of at most 11 vertices (depth by induction)"
 //@run name=CreateCPolyPath64.z entry=h_Create defs=USINGZ unwind=9 flags=SAFETY timeout=600 bounded="at most 2 children per node, polygon of at most 7 vertices, USINGZ layout (depth by induction)" props=C17,C15,C10
-//@run name=CreateCPolyTree64 entry=h_Tree defs=TOP unwind=4 flags=SAFETY timeout=600 bounded="at most 2 top-level children (depth by induction)"
+//@run name=CreateCPolyTree64 entry=h_Tree defs=TOP,TOP64 unwind=4 flags=SAFETY timeout=600 bounded="at most 2 top-level children (depth by induction)"
 //@assume A5 (C17_polytree): the recursive calls are stand-ins that state the induction hypothesis for a child (its block is exactly g_len long and fits); PolyPath64 is a node with a polygon, two child slots and the ghost block length; `new int64_t[n]` is a fixed block of 24 elements with the requested length recorded, every write is checked against it.
+//@run name=GetPolyPathArrayLenD entry=h_Len defs=DVAR unwind=4 flags=SAFETY timeout=300 bounded="at most 2 children per node (depth by induction)"
+//@run name=CreateCPolyPathD entry=h_Create defs=DVAR unwind=13 flags=SAFETY timeout=600 bounded="at most 2 children per node, polygon of at most 11 vertices (depth by induction)"
+//@run name=CreateCPolyPathD.z entry=h_Create defs=DVAR,USINGZ unwind=9 flags=SAFETY timeout=600 bounded="at most 2 children per node, polygon of at most 7 vertices, USINGZ layout (depth by induction)" props=C17,C15,C10
+//@run name=CreateCPolyTreeD entry=h_Tree defs=DVAR,TOP,TOPD unwind=4 flags=SAFETY timeout=600 bounded="at most 2 top-level children (depth by induction)"
